@@ -1254,6 +1254,30 @@ pub fn profile(name: &str, flavor: &'static str) -> Profile {
             steps: 110,
             ..base
         },
+        "below" => Profile {
+            name: "below",
+            keys: vec![3, 4, 5, 6, 7],
+            w: [34, 0, 8, 12, 24, 4, 0, 3, 0, 2, 0, 2],
+            max_cost: (40, 60),
+            costs: vec![0, 1, 2, 3, 5],
+            p_bump: 0.05,
+            steps: 90,
+            ..base
+        },
+        "below_ttl" => Profile {
+            name: "below_ttl",
+            keys: vec![3, 4, 5, 6, 7, 2],
+            w: [14, 26, 6, 10, 22, 3, 8, 3, 0, 2, 0, 2],
+            p_advance: 0.3,
+            p_tick: 0.45,
+            ttls: vec![300, 999, 1000, 1001, 1500, 2500, 3_600_000],
+            advances: vec![100, 499, 500, 501, 999, 1000, 1001, 2000, 2500],
+            max_cost: (40, 60),
+            costs: vec![0, 1, 2, 3, 5],
+            p_bump: 0.05,
+            steps: 110,
+            ..base
+        },
         "ttl_conc" => Profile {
             name: "ttl_conc",
             clients: 2,
